@@ -25,6 +25,12 @@ class Digest:
     def __init__(self):
         self._h = hashlib.sha256()
         self.states = set()
+        self.windows = set()      # distinct interleaving windows: 4-grams over the alphabet of simultaneously changed lines
+
+    def add_events(self, events):
+        for i in range(len(events) - 3):
+            data = "|".join(events[i:i + 4]).encode()
+            self.windows.add(int.from_bytes(hashlib.blake2b(data, digest_size=8).digest(), "big"))
 
     def add(self, obj, state=True):
         data = json.dumps(obj, separators=(",", ":"), default=str).encode()
